@@ -48,11 +48,19 @@ class AdvEnum(enum.Enum):
     comment = "x--y/*z*/"
 
 
+class AdvStrEnum(str, enum.Enum):
+    """a str-mixin enum: its members ARE strings; what is inlined is the member's value, not its name"""
+    quote = "it's red"
+    trail = "blue\\"
+    plain = "green"
+
+
 class MarkerEnum(enum.Enum):
     m = "zqve0"
 
 
 FIXED_VALUES += list(AdvEnum)
+STR_ENUM_VALUES = list(AdvStrEnum)
 
 
 def case_twin(a):
